@@ -809,7 +809,13 @@ func childCommand(name string, args ...string) *exec.Cmd {
 // field of the evaluator it already has, then calls Prepare again.
 func editedScript(c *verifsim.Chooser, text string) (string, string) {
 	lines := strings.Split(text, "\n")
-	switch c.Intn(7) {
+	switch c.Intn(9) {
+	case 7:
+		// text that parses but that the compiler rejects - after it has
+		// compiled (and pooled the constants of) everything before it
+		return text + "\n" + []string{"3 += 2;", "\"late\" -= 1;", "g0 = 1; 4 *= g0;"}[c.Intn(3)] + "\n", "a statement the compiler rejects appended"
+	case 8:
+		return []string{"a = \"one\"; b = 2.5; 3 += 2;", "return 1 +;", "", "function f( {"}[c.Intn(4)], "text that does not prepare"
 	case 0:
 		// one line less (not a line that opens or closes a block)
 		var cand []int
